@@ -62,6 +62,9 @@ PRED_IMPL = {
     "len2": lambda v: len(v) == 2,
     "short": lambda v: len(v) < 2,
     "hasmark": lambda v: hasattr(v, "mA"),
+    # conditions whose result is truthy / falsy but not a bool (RAW: handed to the library as is)
+    "mod3": lambda v: v % 3,
+    "lenraw": lambda v: len(v),
     "named_even": lambda v: int(type(v).__name__[1:]) % 2 == 0,
 }
 # which builtin bound makes each predicate total
@@ -69,7 +72,9 @@ PRED_DOMAIN = {
     "pos": "num", "neg": "num", "zero": "num", "nonneg": "num", "even": "int", "big": "num",
     "truthy": "any", "falsy": "any", "true": "any", "false": "any",
     "len2": "sized", "short": "sized", "hasmark": "any", "named_even": "kcls",
+    "mod3": "int", "lenraw": "sized",
 }
+PRED_RAW = {"mod3", "lenraw"}
 
 
 def make_pred(pid, log=None):
@@ -78,7 +83,7 @@ def make_pred(pid, log=None):
     def pred(v):
         if log is not None:
             log.asked.append((pid, v))
-        return bool(impl(v))
+        return impl(v) if pid in PRED_RAW else bool(impl(v))
 
     pred.__name__ = f"p_{pid}"
     pred.__qualname__ = f"p_{pid}"
@@ -94,6 +99,15 @@ def pred_holds(pid, v):
 
 
 # ------------------------------------------------------------------ building real objects
+
+
+class UStr(str):
+    """an ordinary str value - equal to the plain string - whose class switched hashing off"""
+
+    __hash__ = None
+
+    def __repr__(self):
+        return f"UStr({str.__repr__(self)})"
 
 
 class Color(enum.IntEnum):
@@ -115,6 +129,8 @@ def build_value(v, env):
         return env[v[1]]()
     if k == "float":
         return float(v[1])  # also "inf" / "nan"
+    if k == "ustr":
+        return UStr(v[1])  # a str that cannot be hashed
     if k == "enum":
         return ENUMS[v[1]]
     if k in ("int", "bool", "str"):
